@@ -410,7 +410,7 @@ static void process_ldm_stm(
   uint32_t opcode,
   int index)
 {
-  const char *pru_str[] = { "db", "ib", "da", "ia" };
+  const char *pru_str[] = { "da", "ia", "db", "ib" };
   int cond = (opcode >> 28) & 0xf;
   int w = (opcode >> 21) & 1;
   int s = (opcode >> 22) & 1;
